@@ -8,7 +8,8 @@ rationals where it interpolates).
 The model, the theorems and the oracle describe the code WITH fixes/C13_*.patch applied (six small
 repairs, see the patch headers); on a tree without them this check reports a VIOLATION.
 """
-import struct
+import contextlib
+import io
 from datetime import datetime, timedelta
 from fractions import Fraction
 
@@ -150,6 +151,17 @@ def _gen_period(rng, full_day=False, short=False):
         sh, eh = rng.choice([(0, 23), (0, 23), (0, 23), (6, 18), (22, 4), (0, 12), (12, 23), (9, 9), (5, 4),
                              (1, 22)])
     ts = rng.choice([1, 1, 1, 2, 2, 3, 4, 6, 12, 60] if not short else [1, 1, 2, 3, 4, 6])
+    if (sh, eh) != (0, 23):
+        # Header.duplicate() enumerates a period with an hour window (6 us per step): keep those small
+        nd = 366 if leap else 365
+        days = (_md_to_doy(leap, em, ed) - _md_to_doy(leap, sm, sd)) % nd + 1
+        if (em, ed, eh) != (sm, sd, sh) and days == 1 and eh < sh:
+            days = nd
+        while days * 24 * ts > 2500 and ts > 1:
+            ts = max(t for t in VALID_TS if t < ts)
+        if days * 24 * ts > 2500 and rng.random() < 0.9:
+            doy = (_md_to_doy(leap, sm, sd) - 1 + rng.choice([0, 1, 3, 40, 90])) % nd + 1
+            em, ed = _doy_to_md(leap, doy)
     return [sm, sd, sh, em, ed, eh, ts, leap]
 
 
@@ -290,6 +302,8 @@ def _gen_holes(ctx, count):
         ap = _gen_period(rng, full_day=True, short=rng.random() < 0.9)
         if ap[:6] == [1, 1, 0, 12, 31, 23]:
             ap[6] = rng.choice([1, 2])
+        if len(_full_day_steps(ap)) > 20000:
+            ap[6] = 1
         steps = _full_day_steps(ap)
         n = len(steps)
         pat = rng.choice(['none', 'leading', 'trailing', 'interior', 'single', 'random', 'sparse', 'one_hole',
@@ -507,10 +521,16 @@ def _compare_num(ctx, op, cases, model_line, impl_fn):
 
 
 def correspondence(ctx):
+    # AnalysisPeriod prints 'Updated end_day ...' when it clips a day: keep the run's stdout clean
+    with contextlib.redirect_stdout(io.StringIO()):
+        _correspondence(ctx)
+
+
+def _correspondence(ctx):
     rng = ctx.rng
     # fixed corpus first
     corpus = [c for op, c in _corpus() if op == 'validate_hourly']
-    cases = corpus + _gen_validate_hourly(ctx, ctx.n(2500, 40000))
+    cases = corpus + _gen_validate_hourly(ctx, ctx.n(1500, 40000))
     _compare_exact(ctx, 'vh', cases,
                    lambda c: 'vh %s %s %d%s' % (_ap_line(c['ap']), _b(c['dl']), len(c['data']),
                                                  _line_items(c['data'])), _impl_vh)
@@ -922,7 +942,8 @@ def _oracle_cases(ctx):
 
 
 def oracle(ctx):
-    run_oracle_cases(ctx, _oracle_cases(ctx), check_case)
+    with contextlib.redirect_stdout(io.StringIO()):
+        run_oracle_cases(ctx, _oracle_cases(ctx), check_case)
 
 
 LEVEL_TEXT = ('Machine-checked Lean 4 theorems over an executable model of the validation, hole-filling and '
